@@ -238,6 +238,51 @@ Proof.
   rewrite absl_ins_sorted, IH. reflexivity.
 Qed.
 
+(* -- sort_by: the model's sort is the reference stable sort when the two comparators agree -- *)
+Lemma absl_ins_by lem les x m :
+  (forall a b, lem a b = les (abskv a) (abskv b)) ->
+  absl (kv_ins_by lem x m) = sorted_insert les (abskv x) (absl m).
+Proof.
+  intro Hc. induction m as [|y m IH]; simpl; [reflexivity|].
+  rewrite (Hc x y). destruct (les (abskv x) (abskv y)); simpl; [reflexivity|].
+  rewrite IH. reflexivity.
+Qed.
+Lemma absl_sort_by lem les m :
+  (forall a b, lem a b = les (abskv a) (abskv b)) ->
+  absl (kv_sort_by lem m) = stable_sort les (absl m).
+Proof.
+  intro Hc. induction m as [|x m IH]; simpl; [reflexivity|].
+  rewrite (absl_ins_by lem les x _ Hc), IH. reflexivity.
+Qed.
+
+Lemma tcmp_le_abs c a b : tcmp_le c a b = scmp_le c false (abskv a) (abskv b).
+Proof.
+  destruct a as [ka ia], b as [kb ib]. destruct c; [reflexivity|]. unfold tcmp_le, scmp_le, scmp_base. simpl.
+  assert (R : forall i, item_rank i = plain_rank (abs_item i)).
+  { intros [|[[s|z|f|bb|dt] r d|vals tr cm d sp|items pre im dt d sp]|[items d im dt p sp]|ts sp]; reflexivity. }
+  rewrite !R. reflexivity.
+Qed.
+Lemma icmp_le_abs c a b : icmp_le c a b = scmp_le c true (abskv a) (abskv b).
+Proof.
+  destruct a as [ka ia], b as [kb ib]. unfold icmp_le, scmp_le. simpl.
+  assert (V : forall v, is_val (abs_value v) = true) by (intros [| |]; reflexivity).
+  assert (N : forall i, match i with IValue _ => False | _ => True end -> is_val (abs_item i) = false).
+  { intros [|v|[items d im dt p sp]|ts sp] H; try reflexivity. contradiction. }
+  assert (R : forall v, value_rank v = plain_rank (abs_value v)).
+  { intros [[s|z|f|bb|dt] r d|vals tr cm d sp|items pre im dt d sp]; reflexivity. }
+  destruct ia as [|va|ta|tsa spa].
+  - rewrite (N INone I). reflexivity.
+  - change (abs_item (IValue va)) with (abs_value va). rewrite V.
+    destruct ib as [|vb|tb|tsb spb].
+    + rewrite (N INone I). reflexivity.
+    + change (abs_item (IValue vb)) with (abs_value vb). rewrite V.
+      destruct c; unfold scmp_base; cbn [fst snd]; [reflexivity|]. rewrite !R. reflexivity.
+    + rewrite (N (ITable tb) I). reflexivity.
+    + rewrite (N (IAot tsb spb) I). reflexivity.
+  - rewrite (N (ITable ta) I). reflexivity.
+  - rewrite (N (IAot tsa spa) I). reflexivity.
+Qed.
+
 (* -- vectors -- *)
 Lemma map_nth_upd {A B} (ab : A -> B) n (f : A -> option A) (g : B -> B) l l' :
   nth_upd n f l = Some l' ->
